@@ -200,29 +200,65 @@ theorem failed_create_changes_nothing_fixed {env : Env} (hv : env.v.fixReturn = 
 /-! ## letter case -/
 
 theorem readable_frame (env : Env) (st : Store) (op : Op) (ch : Choice) (a : Name)
-    (h : Readable (step env st op ch).1 a) : Readable st a ∨ a ∈ targets op ch := by
-  by_cases ha : a ∈ targets op ch
+    (h : Readable (step env st op ch).1 a) : Readable st a ∨ a ∈ targets env st op ch := by
+  by_cases ha : a ∈ targets env st op ch
   · exact Or.inr ha
   · obtain ⟨m, hm⟩ := h
     rw [step_man_frame env st op ch a ha] at hm
     exact Or.inl ⟨m, hm⟩
 
-/-- **No case twins, partial.**  `no_case_twins` for arbitrary stores is FALSE (witness below).  It holds
-    under the guard `NoMixed st` — no two readable manifests spell a fold-equal host, namespace, model or tag
-    differently — and that guard is itself preserved by every API operation for every iteration order of
-    the map that `getExistingName` ranges over. -/
-theorem no_case_twins_partial (env : Env) (st : Store) (op : Op) (ch : Choice) (hapi : ApiOp op)
-    (hcov : Covers st ch) (h : NoMixed st) :
+/-- the two injected operations that rewrite a manifest in place create no readable name -/
+theorem readable_of_rewrite (env : Env) (st : Store) (ch : Choice) (n a : Name)
+    (h : Readable (step env st (.corrupt n) ch).1 a ∨ Readable (step env st (.dashify n) ch).1 a) :
+    Readable st a := by
+  rcases h with ha | ha
+  · rcases readable_frame env st (.corrupt n) ch a ha with h' | h'
+    · exact h'
+    · simp only [targets, List.mem_singleton] at h'
+      subst h'
+      obtain ⟨m, hm⟩ := ha
+      simp only [step] at hm
+      cases hs : st.man a with
+      | none => rw [hs] at hm; simp only at hm; rw [hs] at hm; cases hm
+      | some f =>
+        rw [hs] at hm; simp only at hm
+        rw [setManifest_man] at hm
+        simp at hm
+  · rcases readable_frame env st (.dashify n) ch a ha with h' | h'
+    · exact h'
+    · simp only [targets, List.mem_singleton] at h'
+      subst h'
+      cases hs : st.man a with
+      | none =>
+        obtain ⟨m, hm⟩ := ha
+        simp only [step, hs] at hm
+        cases hm
+      | some f =>
+        cases f with
+        | readable m0 => exact ⟨m0, hs⟩
+        | corrupt =>
+          obtain ⟨m, hm⟩ := ha
+          simp only [step, hs] at hm
+          cases hm
+
+/-- **No case twins, partial — pinned `getExistingName`.**  `no_case_twins` for arbitrary stores is FALSE
+    (witness below).  It holds under the guard `NoMixed st` — no two readable manifests spell a fold-equal host,
+    namespace, model or tag differently — and that guard is itself preserved by every API operation for every
+    iteration order of the map that `getExistingName` ranges over. -/
+theorem no_case_twins_partial (env : Env) (hv : env.v.fixResolve = false) (st : Store) (op : Op) (ch : Choice)
+    (hapi : ApiOp op) (hcov : Covers st ch) (h : NoMixed st) :
     NoMixed (step env st op ch).1 ∧ NoTwins (step env st op ch).1 := by
+  have hres : ∀ ord n, resolveName env st ord n = getExistingName ord n := by
+    intro ord n; simp [resolveName, hv]
   have key : NoMixed (step env st op ch).1 := by
-    have sub : ∀ n ord, (∀ e, e ∈ ord ↔ Readable st e) → targets op ch = [getExistingName ord n] →
+    have sub : ∀ n ord, (∀ e, e ∈ ord ↔ Readable st e) → targets env st op ch = [getExistingName ord n] →
         NoMixed (step env st op ch).1 := by
       intro n ord hord ht
       refine (h.insert_resolved ord hord n).mono (fun a ha => ?_)
       rcases readable_frame env st op ch a ha with h' | h'
       · exact Or.inl h'
       · rw [ht] at h'; exact Or.inr (by simpa using h')
-    have sub0 : targets op ch = [] → NoMixed (step env st op ch).1 := by
+    have sub0 : targets env st op ch = [] → NoMixed (step env st op ch).1 := by
       intro ht
       refine h.mono (fun a ha => ?_)
       rcases readable_frame env st op ch a ha with h' | h'
@@ -231,24 +267,12 @@ theorem no_case_twins_partial (env : Env) (st : Store) (op : Op) (ch : Choice) (
     cases op with
     | upload d c => exact sub0 rfl
     | prune => exact sub0 rfl
-    | create r => exact sub r.name ch.ord1 hcov.1 rfl
-    | copy s d => exact sub d ch.ord2 hcov.2 rfl
-    | delete n => exact sub n ch.ord1 hcov.1 rfl
+    | create r => exact sub r.name ch.ord1 hcov.1 (by simp [targets, hres])
+    | copy s d => exact sub d ch.ord2 hcov.2 (by simp [targets, hres])
+    | delete n => exact sub n ch.ord1 hcov.1 (by simp [targets, hres])
     | plant s d => exact absurd hapi (by simp [ApiOp])
-    | corrupt n =>
-      refine h.mono (fun a ha => ?_)
-      rcases readable_frame env st (.corrupt n) ch a ha with h' | h'
-      · exact h'
-      · simp only [targets, List.mem_singleton] at h'
-        subst h'
-        obtain ⟨m, hm⟩ := ha
-        simp only [step] at hm
-        cases hs : st.man a with
-        | none => rw [hs] at hm; simp only at hm; rw [hs] at hm; cases hm
-        | some f =>
-          rw [hs] at hm; simp only at hm
-          rw [setManifest_man] at hm
-          simp at hm
+    | corrupt n => exact h.mono (fun a ha => readable_of_rewrite env st ch n a (Or.inl ha))
+    | dashify n => exact h.mono (fun a ha => readable_of_rewrite env st ch n a (Or.inr ha))
   exact ⟨key, key.noTwins⟩
 
 /-- histories of API operations whose iteration orders are orders of the actual manifest map -/
@@ -256,15 +280,15 @@ def RunOk (env : Env) : Store → List (Op × Choice) → Prop
   | _, [] => True
   | st, (op, ch) :: rest => ApiOp op ∧ Covers st ch ∧ RunOk env (step env st op ch).1 rest
 
-/-- from the empty store, API operations alone never produce two models that differ only by case -/
-theorem reachable_no_twins (env : Env) (ops : List (Op × Choice)) (st : Store) (h : NoMixed st)
-    (hr : RunOk env st ops) : NoTwins (run env st ops) := by
+/-- from the empty store, API operations alone never produce two models that differ only by case (pinned) -/
+theorem reachable_no_twins (env : Env) (hv : env.v.fixResolve = false) (ops : List (Op × Choice)) (st : Store)
+    (h : NoMixed st) (hr : RunOk env st ops) : NoTwins (run env st ops) := by
   induction ops generalizing st with
   | nil => exact h.noTwins
   | cons p rest ih =>
     obtain ⟨op, ch⟩ := p
     obtain ⟨h1, h2, h3⟩ := hr
-    exact ih _ (no_case_twins_partial env st op ch h1 h2 h).1 h3
+    exact ih _ (no_case_twins_partial env hv st op ch h1 h2 h).1 h3
 
 theorem empty_NoMixed : NoMixed Store.empty := by
   have : ∀ a, ¬ Readable Store.empty a := by
@@ -272,12 +296,81 @@ theorem empty_NoMixed : NoMixed Store.empty := by
   exact ⟨fun a _ ha => absurd ha (this a), fun a _ ha => absurd ha (this a),
          fun a _ ha => absurd ha (this a), fun a _ ha => absurd ha (this a)⟩
 
+/-! ## F16b repaired: no operation ever CREATES a case twin, in any store -/
+
+/-- **No new case twins — F16b repaired, no guard.**  For EVERY store (mixed spelling allowed, twins allowed),
+    every API operation and every `Choice`: two distinct readable names that differ only by letter case after
+    the operation were both already there before it.  What remains: twins that exist already (legacy stores,
+    manual copies) are not merged or removed by anything. -/
+theorem no_new_case_twins_fixed (env : Env) (hv : env.v.fixResolve = true) (st : Store) (op : Op) (ch : Choice)
+    (hapi : ApiOp op) (a b : Name) (ha : Readable (step env st op ch).1 a)
+    (hb : Readable (step env st op ch).1 b) (hab : a.equalFold b = true) (hne : a ≠ b) :
+    Readable st a ∧ Readable st b := by
+  have hres : ∀ ord n, resolveName env st ord n = getExistingNameFixed st.readableNames n := by
+    intro ord n; simp [resolveName, hv]
+  -- operations whose target is a resolved name
+  have sub : ∀ n, targets env st op ch = [getExistingNameFixed st.readableNames n] →
+      Readable st a ∧ Readable st b := by
+    intro n ht
+    have fr : ∀ x, Readable (step env st op ch).1 x → Readable st x ∨ x = getExistingNameFixed st.readableNames n := by
+      intro x hx
+      rcases readable_frame env st op ch x hx with h' | h'
+      · exact Or.inl h'
+      · rw [ht] at h'; exact Or.inr (by simpa using h')
+    rcases getExistingNameFixed_spec st.readableNames n with hin | ⟨hno, hfold⟩
+    · have ht' : Readable st (getExistingNameFixed st.readableNames n) := mem_readableNames.mp hin
+      exact ⟨(fr a ha).elim id (fun e => e ▸ ht'), (fr b hb).elim id (fun e => e ▸ ht')⟩
+    · -- the target is new and nothing existing is fold-equal to the request
+      have none_fold : ∀ x, Readable st x → x.equalFold (getExistingNameFixed st.readableNames n) = true → False := by
+        intro x hx hxf
+        have := hno x (mem_readableNames.mpr hx)
+        rw [equalFold_trans hxf hfold] at this; cases this
+      rcases fr a ha with ha' | ha' <;> rcases fr b hb with hb' | hb'
+      · exact ⟨ha', hb'⟩
+      · subst hb'; exact (none_fold a ha' hab).elim
+      · subst ha'; exact (none_fold b hb' (equalFold_symm hab)).elim
+      · exact absurd (ha'.trans hb'.symm) hne
+  have sub0 : (∀ x, Readable (step env st op ch).1 x → Readable st x) → Readable st a ∧ Readable st b :=
+    fun h => ⟨h a ha, h b hb⟩
+  cases op with
+  | upload d c =>
+    exact sub0 (fun x hx => (readable_frame env st _ ch x hx).elim id (fun h => by simp [targets] at h))
+  | prune =>
+    exact sub0 (fun x hx => (readable_frame env st _ ch x hx).elim id (fun h => by simp [targets] at h))
+  | create r => exact sub r.name (by simp [targets, hres])
+  | copy s d => exact sub d (by simp [targets, hres])
+  | delete n => exact sub n (by simp [targets, hres])
+  | plant s d => exact absurd hapi (by simp [ApiOp])
+  | corrupt n => exact sub0 (fun x hx => readable_of_rewrite env st ch n x (Or.inl hx))
+  | dashify n => exact sub0 (fun x hx => readable_of_rewrite env st ch n x (Or.inr hx))
+
+/-- hence `no_case_twins` itself is an invariant of every API operation, with no spelling guard -/
+theorem no_case_twins_fixed (env : Env) (hv : env.v.fixResolve = true) (st : Store) (op : Op) (ch : Choice)
+    (hapi : ApiOp op) (h : NoTwins st) : NoTwins (step env st op ch).1 := by
+  intro a b ha hb hab
+  by_cases hne : a = b
+  · exact hne
+  · obtain ⟨ha', hb'⟩ := no_new_case_twins_fixed env hv st op ch hapi a b ha hb hab hne
+    exact h a b ha' hb' hab
+
+theorem reachable_no_twins_fixed (env : Env) (hv : env.v.fixResolve = true) (ops : List (Op × Choice))
+    (hapi : ∀ p ∈ ops, ApiOp p.1) (st : Store) (h : NoTwins st) : NoTwins (run env st ops) := by
+  induction ops generalizing st with
+  | nil => exact h
+  | cons p rest ih =>
+    exact ih (fun q hq => hapi q (by simp [hq])) _
+      (no_case_twins_fixed env hv st p.1 p.2 (hapi p (by simp)) h)
+
 /-! ## witnesses of the defects the model shares with the code (Lean-checked) -/
 
 /-- a toy world: the "hash" of a content is its text; anything that starts with 'G' is a GGUF file -/
 def wEnv : Env :=
   { hash := fun c => String.ofList (c.map (fun b => Char.ofNat b.toNat))
-    gguf := fun c => if c.head? = some 71 then some ⟨"llama", "0", "unknown"⟩ else none }
+    gguf := fun c => if c.head? = some 71 then some ⟨"llama", "0", "unknown"⟩ else none
+    v := .pinned }
+
+/-- the same toy world with all three repairs in -/
+def rEnv : Env := { wEnv with v := .repaired }
 
 def nm (ns m : String) : Name := ⟨"registry.ollama.ai", ns, m, "latest"⟩
 def gG : Bytes := [71]
@@ -322,8 +415,8 @@ theorem F16a_breaks_NameInv : ¬ NameInv wEnv (step wEnv stA (.delete (nm "libra
     (`prune_exact` is false without the guard). -/
 theorem F16a_prune_witness :
     let st := run wEnv Store.empty [(.upload ⟨.colon, "G"⟩ gG, ch0), (mk (nm "library" "b") .dash, ch0)]
-    incompleteB st = false ∧ st.keyReferenced "G" = true ∧ (pruneStartup st).1.blob "G" = none ∧
-    incompleteB (pruneStartup st).1 = true := by decide +kernel
+    incompleteB st = false ∧ st.keyReferenced "G" = true ∧ (pruneStartup wEnv st).1.blob "G" = none ∧
+    incompleteB (pruneStartup wEnv st).1 = true := by decide +kernel
 
 /-- a store in which two manifests spell the model part differently: library/Foo and other/foo -/
 def stB : Store := run wEnv Store.empty
@@ -363,6 +456,37 @@ theorem N1_create_continues_witness :
     ((r.1.readableAt (nm "library" "a")).map (·.layers)) = some [] ∧ r.1.blob "G" = none ∧
     (listed r.1).contains (nm "library" "a") = true ∧ showAt wEnv r.1 (nm "library" "a") = "h404" := by
   decide +kernel
+
+/-! ## the same histories with the repairs in (Lean-checked) -/
+
+/-- F16a repaired: `create b {f: "sha256-G"}` records `sha256:G`; even a manifest respelled by hand
+    (`dashify`) protects its blob from delete and from the startup prune -/
+theorem F16a_repaired_witness :
+    let st := run rEnv Store.empty
+      [(.upload ⟨.colon, "G"⟩ gG, ch0), (mk (nm "library" "a") .colon, ch0), (mk (nm "library" "b") .dash, ch0),
+       (.dashify (nm "library" "b"), ch0)]
+    let s1 := (step rEnv st (.delete (nm "library" "a")) ch0).1
+    let s2 := (pruneStartup rEnv s1).1
+    st.referenced ⟨.colon, "G"⟩ = true ∧ s1.referenced ⟨.colon, "G"⟩ = false ∧
+    s1.referenced ⟨.dash, "G"⟩ = true ∧ (s1.blob "G").isSome = true ∧ (s2.blob "G").isSome = true ∧
+    incompleteB s2 = false ∧ showAt rEnv s2 (nm "library" "b") = "h200" := by decide +kernel
+
+/-- F16b repaired: in the mixed store `create library/foo` goes to library/Foo whatever the `Choice` says -/
+theorem F16b_repaired_witness :
+    let stB' := run rEnv Store.empty
+      [(.upload ⟨.colon, "G"⟩ gG, ch0), (mk (nm "library" "Foo") .colon, ch0),
+       (.plant (nm "library" "Foo") (nm "other" "foo"), ch0)]
+    let o1 : Choice := ⟨[nm "library" "Foo", nm "other" "foo"], [], false⟩
+    let s1 := (step rEnv stB' (mk (nm "library" "foo") .colon) o1).1
+    (s1.readableAt (nm "library" "foo")).isSome = false ∧ (s1.readableAt (nm "library" "Foo")).isSome = true ∧
+    showAt rEnv stB' (resolveName rEnv stB' o1.ord1 (nm "library" "Foo")) = "h200" := by decide +kernel
+
+/-- N1 repaired: the failed create reports only the error and `a` is as it was -/
+theorem N1_repaired_witness :
+    let st := run rEnv Store.empty [(.upload ⟨.colon, "G"⟩ gG, ch0), (mk (nm "library" "a") .colon, ch0)]
+    let r := step rEnv st (.create ⟨nm "library" "a", some (nm "nobody" "missing"), [], none, none, []⟩) ch0
+    r.2 = ["e500"] ∧ r.1.man (nm "library" "a") = st.man (nm "library" "a") ∧
+    (r.1.blob "G").isSome = true ∧ showAt rEnv r.1 (nm "library" "a") = "h200" := by decide +kernel
 
 /-! ## non-vacuity -/
 
@@ -411,7 +535,7 @@ example :
        (.copy (nm "library" "a") (nm "library" "c"), ch0),
        (.create ⟨nm "library" "a", some (nm "library" "a"), [], none, some [83], []⟩, ch0)]
     HashInj wEnv ∧ Inv wEnv st ∧ Canonical st := by
-  refine ⟨wEnv_inj, history_preserves_Inv wEnv_inj _ ?_ _ (empty_Inv wEnv).2 (empty_Inv wEnv).1⟩
+  refine ⟨wEnv_inj, history_preserves_Inv rfl wEnv_inj _ ?_ _ (empty_Inv wEnv).2 (empty_Inv wEnv).1⟩
   intro p hp
   simp only [List.mem_cons, List.not_mem_nil, or_false] at hp
   rcases hp with rfl | rfl | rfl | rfl
